@@ -51,11 +51,30 @@ type Ledger struct {
 	d     *Duo
 	Side  map[string]*SideLedger // by agent name
 	wireN int
+	// creds: every (ufrag, pwd) an agent has had (an agent that has not restarted yet still accepts
+	// traffic under the old credentials of a peer that already has)
+	creds map[string][][2]string
+}
+
+func (l *Ledger) noteCreds() {
+	for _, ag := range []*AgentH{l.d.A, l.d.B} {
+		cur := [2]string{ag.Ufrag, ag.Pwd}
+		known := false
+		for _, c := range l.creds[ag.Name] {
+			if c == cur {
+				known = true
+			}
+		}
+		if !known {
+			l.creds[ag.Name] = append(l.creds[ag.Name], cur)
+		}
+	}
 }
 
 // NewLedger attaches a ledger to the Duo; call Update at every quiescent point.
 func NewLedger(d *Duo) *Ledger {
-	l := &Ledger{d: d, Side: map[string]*SideLedger{"A": newSide(), "B": newSide()}}
+	l := &Ledger{d: d, Side: map[string]*SideLedger{"A": newSide(), "B": newSide()}, creds: map[string][][2]string{}}
+	l.noteCreds()
 	prev := d.S.AfterDeliver
 	d.S.AfterDeliver = func(dg *simnet.Datagram, res simnet.DeliverResult, to *simnet.Sock) {
 		if prev != nil {
@@ -82,6 +101,7 @@ func (l *Ledger) agentOfHost(h *simnet.Host) (*AgentH, *AgentH) {
 // scanWire records requests newly put on the wire by the agents' own sockets.
 func (l *Ledger) scanWire() {
 	d := l.d
+	l.noteCreds()
 	d.W.Lock()
 	wire := d.Wire[l.wireN:]
 	l.wireN = len(d.Wire)
@@ -132,7 +152,13 @@ func (l *Ledger) onDeliver(dg *simnet.Datagram, to *simnet.Sock) {
 	s := l.Side[ag.Name]
 	switch m.Class {
 	case stun.ClassSuccessResponse:
-		if stun.MessageIntegrity([]byte(peer.Pwd)).Check(m.M) != nil {
+		authentic := false
+		for _, cr := range l.creds[peer.Name] {
+			if stun.MessageIntegrity([]byte(cr[1])).Check(m.M) == nil {
+				authentic = true
+			}
+		}
+		if !authentic {
 			return
 		}
 		req, ok := s.Sent[m.TxID]
@@ -148,10 +174,15 @@ func (l *Ledger) onDeliver(dg *simnet.Datagram, to *simnet.Sock) {
 			s.NomAnswered[k] = *req.Nom
 		}
 	case stun.ClassRequest:
-		if !m.HasUsername || m.Username != ag.Ufrag+":"+peer.Ufrag {
-			return
+		authentic := false
+		for _, own := range l.creds[ag.Name] {
+			for _, pc := range l.creds[peer.Name] {
+				if m.HasUsername && m.Username == own[0]+":"+pc[0] && stun.MessageIntegrity([]byte(own[1])).Check(m.M) == nil {
+					authentic = true
+				}
+			}
 		}
-		if stun.MessageIntegrity([]byte(ag.Pwd)).Check(m.M) != nil {
+		if !authentic {
 			return
 		}
 		k := PairKey{dg.Dst, dg.Src}
